@@ -353,17 +353,22 @@ func (env *c11Env) runPartA() {
 		res.NotExhaustive("a staticcheck.conf exists above the scratch directory; part A skipped")
 		return
 	}
-	// quick: every level <= 2 elements, <= 5 in the tree; thorough: every level <= 2 (any total), or
-	// some level with 3 elements and <= 5 in the tree.
+	// File-system calls are the bottleneck of this part (about 20 per config.Load, and the sandbox
+	// serves only ~350k of them per second machine-wide), which is what fixes the bounds:
+	// quick: every level <= 2 elements, <= 4 in the tree (212k trees); thorough: every level <= 2
+	// (any total, 3.9M trees), plus trees with a 3-element list and <= 4 elements in total.
 	var sp *c11Space
 	if vx.Thorough() {
-		sp = env.newSpace(3, 2, 6, 5, 2)
-		res.Bound = "part A: conf trees root/dir/subdir over the 12-token alphabet, each level absent or a checks list; all trees with lists of length <= 2, and all trees with lists of length <= 3 and at most 5 elements in total; x -checks unset or a list of length 1..2"
+		sp = env.newSpace(3, 2, 6, 4, 2)
+		res.Bound = "part A: conf trees root/dir/subdir over the 12-token alphabet, each level absent or a checks list; all trees with lists of length <= 2, and all trees with lists of length <= 3 and at most 4 elements in total; x -checks unset or a list of length 1..2"
 	} else {
-		sp = env.newSpace(2, 2, 5, 5, 2)
-		res.Bound = "part A: conf trees root/dir/subdir over the 12-token alphabet, each level absent or a checks list of length <= 2, at most 5 elements per tree; x -checks unset or a list of length 1..2"
+		sp = env.newSpace(2, 2, 4, 4, 2)
+		res.Bound = "part A: conf trees root/dir/subdir over the 12-token alphabet, each level absent or a checks list of length <= 2, at most 4 elements per tree; x -checks unset or a list of length 1..2"
 	}
 	nw := runtime.GOMAXPROCS(0)
+	if nw > 8 {
+		nw = 8 // more concurrent file-system users lower the throughput here
+	}
 	shared := filepath.Join(env.scratch, "A", "sh")
 	none := c11Level{}
 
